@@ -249,6 +249,8 @@ FUNCS = [
     ("rig/place_and_route/place/utils.py", "overallocated", ["dict"], "bool"),
     ("rig/place_and_route/place/utils.py", "resources_after_reservation",
      ["dict", "rec:resource,reservation.start,reservation.stop"], "exc:dict"),
+    ("rig/bitfield.py", "BitField._assign_field",
+     ["rec:length", "local:field=obj:length:o,start_at:o,max_value", "int", "ignored", "ignored"], "exc:int"),
     ("rig/type_casts.py", "NumpyFloatToFixConverter.__init__",
      ["obj:max_value,min_value,n_frac;skip:bytes_per_element,dtype", "bool", "int", "int"], "exc:none"),
     ("rig/type_casts.py", "float_to_fp", ["bool", "int", "int", "->bitsk", "float"], "exc:int"),
@@ -415,6 +417,9 @@ structure PyFloatOps (φ : Type) where
   mul : φ → φ → φ
   /-- `int(x)`: truncation toward zero (OverflowError for an infinity) -/
   toInt : φ → Except String Int
+  /-- `int(math.log(k, 2))` for an int `k` (ValueError: math domain error for k <= 0): a floating-point logarithm,
+  NOT always the exact integer logarithm -/
+  ilog2 : Int → Except String Int
 
 /-- Python `int(math.sqrt(n))` (integer square root, exact below 2^52; `ValueError: math domain error` for n < 0) -/
 def pyIsqrt (n : Int) : Except String Int :=
@@ -704,6 +709,8 @@ class Tr(object):
             return ident(n.id), ast.dump(n), ident(n.id) + "_v"
         if isinstance(n, ast.Name) and n.id in self.optslices and self.lty.get(ident(n.id)) == "Option (Int × Int)":
             return ident(n.id), ast.dump(n), ident(n.id) + "_v"
+        if isinstance(n, ast.Name) and self.lty.get(ident(n.id)) == "Option Int" and n.id not in self.types:
+            return ident(n.id), ast.dump(ast.Name(id=n.id, ctx=ast.Load())), ident(n.id) + "_v"   # a local that holds int or None
         if isinstance(n, ast.Attribute) and isinstance(n.value, ast.Name) and self.types.get(n.value.id) == "oslice" \
                 and n.attr in ("start", "stop", "step"):
             i = ("start", "stop", "step").index(n.attr)
@@ -721,6 +728,9 @@ class Tr(object):
         if isinstance(n, ast.Name):
             if n.id in self.optslices and ast.dump(n) in self.narrow:
                 return "Int × Int"
+            if self.lty.get(ident(n.id)) == "Option Int" and n.id not in self.types \
+                    and ast.dump(ast.Name(id=n.id, ctx=ast.Load())) in self.narrow:
+                return "Int"
             return self.lty.get(ident(n.id), "Int")
         if isinstance(n, ast.Constant) and isinstance(n.value, bool):
             return "Bool"
@@ -952,6 +962,13 @@ class Tr(object):
                 and not n.keywords and "float" not in self.lty:
             self.uses_float = True
             return self.as_float(n.args[0])
+        if (isinstance(n, ast.Call) and isinstance(n.func, ast.Name) and n.func.id == "int" and len(n.args) == 1
+                and not n.keywords and isinstance(n.args[0], ast.Call) and isinstance(n.args[0].func, ast.Name)
+                and n.args[0].func.id == "log" and len(n.args[0].args) == 2 and not n.args[0].keywords
+                and isinstance(n.args[0].args[1], ast.Constant) and n.args[0].args[1].value == 2
+                and self.tyof(n.args[0].args[0]) == "Int" and "log" not in self.lty and self.imports_log):
+            self.uses_float = True
+            return self.raising("(F.ilog2 %s)" % self.e(n.args[0].args[0]))   # int(math.log(k, 2)): float logarithm
         if isinstance(n, ast.Call) and isinstance(n.func, ast.Name) and n.func.id == "int" and len(n.args) == 1 \
                 and not n.keywords and self.tyof(n.args[0]) == "φ":
             self.uses_float = True
@@ -1066,6 +1083,11 @@ class Tr(object):
                 raise NotImplementedError("name " + n.id)
             if self.types.get(n.id) == "obj":
                 raise NotImplementedError("the object `%s` itself used as a value" % n.id)
+            if self.lty.get(ident(n.id)) == "Option Int" and n.id not in self.types:
+                key = ast.dump(ast.Name(id=n.id, ctx=ast.Load()))
+                if key in self.narrow:
+                    return self.narrow[key]
+                raise NotImplementedError("optional `%s` used as a value without an `is None` test" % n.id)
             if n.id in self.optslices and self.lty.get(ident(n.id)) == "Option (Int × Int)":
                 if ast.dump(n) in self.narrow:
                     return self.narrow[ast.dump(n)]
@@ -1728,9 +1750,9 @@ class Tr(object):
         if (self.local_obj and isinstance(s, ast.Assign) and len(s.targets) == 1 and isinstance(s.targets[0], ast.Name)
                 and s.targets[0].id == self.objname):
             c = s.value
-            if not (isinstance(c, ast.Call) and isinstance(c.func, ast.Name) and not c.args and not c.keywords
-                    and ((c.func.id == "cls" and self.is_classmethod) or c.func.id in self.classes)):
-                raise NotImplementedError("the local object must be created by `cls()` / `Class()`")
+            if not isinstance(c, ast.Call):
+                raise NotImplementedError("the local object must be the result of a call")
+            # `cls()` / `Class()` / any other call whose result is not modelled (`self.fields.get_field(...)`): 
             # the fresh object is its attribute parameters (the values the constructor leaves)
             return self.block(rest, ind, tail)
         pc = self.proc_call(s)
@@ -1823,6 +1845,16 @@ class Tr(object):
             self.lty[nm] = "Option (Int × Int)"
             text = "%slet %s : Option (Int × Int) := %s\n" % (pad, nm, val)
             return self.seq(pad, text, rest, ind, tail)
+        if (isinstance(s, ast.Assign) and len(s.targets) == 1 and isinstance(s.targets[0], ast.Name)
+                and isinstance(s.value, ast.Attribute) and self.opt_expr(s.value) is not None
+                and self.opt_expr(s.value)[1] not in self.narrow and isinstance(s.value.value, ast.Name)
+                and s.value.value.id == self.objname):
+            # x = obj.attr for an attribute that may be None: x is an optional local
+            nm = ident(s.targets[0].id)
+            self.narrow.pop(ast.dump(ast.Name(id=s.targets[0].id, ctx=ast.Load())), None)
+            self.lty[nm] = "Option Int"
+            text = "%slet %s : Option Int := %s\n" % (pad, nm, self.opt_expr(s.value)[0])
+            return self.seq(pad, text, rest, ind, tail)
         if isinstance(s, ast.Assign) and len(s.targets) == 1:
             t = s.targets[0]
             names = self.target_names(t)
@@ -1830,6 +1862,10 @@ class Tr(object):
             vty = self.tyof(s.value)
             ty = " : " + vty if len(names) == 1 and not isinstance(s.value, ast.Tuple) else ""
             val = self.call_arg(s.value, None)
+            if len(names) == 1 and isinstance(t, ast.Name):
+                self.narrow.pop(ast.dump(ast.Name(id=t.id, ctx=ast.Load())), None)
+            if len(names) == 1 and isinstance(t, ast.Attribute) and self.lty.get(names[0]) == "Option Int" and vty == "Int":
+                val, vty, ty = "(some %s)" % val, "Option Int", " : Option Int"     # an int stored in an int-or-None attribute
             if len(names) == 1:
                 self.bind(names, [vty])
             else:
@@ -1898,7 +1934,7 @@ class Tr(object):
             saved = (dict(self.lty), dict(self.narrow), list(self.pending), len(self.aux), self.ntmp, list(self.oracles))
             return self.if_stmt_(s, rest, ind, tail, False)
         except NotImplementedError as e:
-            if "different types in the branches" not in str(e) or rest or tail is not None or self.loops:
+            if "different types in the branches" not in str(e) or self.loops:
                 raise
             self.lty, self.narrow, self.pending = saved[0], saved[1], saved[2]
             del self.aux[saved[3]:]
@@ -1918,6 +1954,9 @@ class Tr(object):
             self.lty, self.narrow = dict(saved_l), dict(saved_n)
             if narrowed:
                 self.narrow[nt[1]] = self.opt_expr(s.test.left)[2]
+                # the narrowed value is a variable of the scope (loop bodies may capture it)
+                self.lty[self.opt_expr(s.test.left)[2]] = "Int × Int" if (
+                    isinstance(s.test.left, ast.Name) and s.test.left.id in self.optslices) else "Int"
             return self.block(stmts, i, t)
 
         def head(a, b, pad2):
@@ -2064,8 +2103,6 @@ class Tr(object):
         """`for` loop: the loop body becomes a definition `<f>_loop<k> <captured variables> st_ it_` of its own
         (so that companion proofs can talk about it), the loop is `List.foldl` of it"""
         pad = "  " * ind
-        if self.narrow:
-            raise NotImplementedError("loop inside a branch that narrows an optional")
         name = self.new_loop(s)
         lst, ety = self.iter_expr(s.iter)
         my_pending, self.pending = self.pending, []
@@ -2137,8 +2174,6 @@ class Tr(object):
         """`while` loop: condition and body become definitions `<f>_loop<k>_cond`, `<f>_loop<k>`; the loop is
         `pyWhile cond body fuel init`"""
         pad = "  " * ind
-        if self.narrow:
-            raise NotImplementedError("loop inside a branch that narrows an optional")
         name = self.new_loop(s)
         has_brk, has_ret, comps, tys = self.state_setup(s)
         if not comps:
@@ -2398,7 +2433,7 @@ def translate(repo, rel, fname, ptypes, ret, done=None):
         elif t == "ignored":
             types[p] = "ignored"       # a parameter the body must not read (e.g. a parent object that is only stored)
         else:
-            if p == "self" and not (t == "int" and cls in local_enums):
+            if p == "self" and not (t == "int" and cls in local_enums) and not t.startswith("rec:"):
                 raise NotImplementedError("%s: self : %s outside an IntEnum class" % (fname, t))
             types[p] = t
             sig.append("(%s : %s)" % (ident(p), lean_ty(t)))
@@ -2430,6 +2465,8 @@ def translate(repo, rel, fname, ptypes, ret, done=None):
     tr.lty["fuel"] = "Nat"            # the extra parameter of functions with `while` loops
     tr.is_classmethod = is_classmethod
     tr.classes = set(n.name for n in tree.body if isinstance(n, ast.ClassDef))
+    tr.imports_log = any(isinstance(n, ast.ImportFrom) and n.module == "math" and any(
+        al.name == "log" and al.asname is None for al in n.names) for n in tree.body)
     tr.imports_sqrt = any(isinstance(n, ast.ImportFrom) and n.module == "math" and any(
         al.name == "sqrt" and al.asname is None for al in n.names) for n in tree.body)
     tr.rec_elems = dict((ident(p), t[9:].split(",")) for p, t in zip(params, ptypes) if t.startswith("list:rec:"))
